@@ -346,6 +346,7 @@ func (e *Evaluator) evalAssignment(assignment *parser.AssignmentStmt) error {
 	if err != nil {
 		return err
 	}
+	val = copyOrRef(val) // copy basic values as in declarations, e.g. b = err
 	switch n := assignment.Target.(type) {
 	case *parser.Var:
 		e.scope.update(n.Name, val)
